@@ -540,7 +540,12 @@ theorem sim_unsubscribe (x : Index) (a : Abs) (hpc : PrefixClosed x.nodes) (h : 
   unfold unsubscribe Abs.unsubscribe
   simp only [seek_eq_getNode _ hpc]
   by_cases hs : isShare (isolate (splitLevels f) 0).1 = true
-  · simp only [hs, if_true]
+  · by_cases h1 : (isolate (splitLevels f) 1).2 = true
+    case neg =>
+      have h1' : (isolate (splitLevels f) 1).2 = false := by simpa using h1
+      simp only [hs, h1', Bool.not_false, Bool.and_self, if_true]
+      exact h
+    simp only [hs, h1, Bool.not_true, Bool.and_false, Bool.false_eq_true, if_false, if_true]
     cases hg : getNode x.nodes (pathFrom (splitLevels f) 2) with
     | none =>
       simp only
@@ -576,7 +581,7 @@ theorem sim_unsubscribe (x : Index) (a : Abs) (hpc : PrefixClosed x.nodes) (h : 
       · intro q i
         rw [look_unchanged _ (deadNone_inline i) hu (hold (fun n => assocGet n.inline i)) rfl]
         exact h.inline q i
-  · simp only [hs, Bool.false_eq_true, if_false]
+  · simp only [hs, Bool.false_eq_true, Bool.false_and, if_false]
     cases hg : getNode x.nodes (pathFrom (splitLevels f) 0) with
     | none =>
       refine sim_of_ret_unchanged h rfl (fun _ => rfl) ?_ h.shared h.inline
@@ -857,8 +862,10 @@ theorem pathsOK_applyOp (x : Index) (h : PathsOK (x.nodes.map (·.path))) (op : 
     split
     · exact h
     · split
-      · exact pathsOK_trim _ _ _ (pathsOK_putNode _ _ h)
-      · exact pathsOK_trim _ _ _ (pathsOK_putNode _ _ h)
+      · exact h
+      · split
+        · exact pathsOK_trim _ _ _ (pathsOK_putNode _ _ h)
+        · exact pathsOK_trim _ _ _ (pathsOK_putNode _ _ h)
   | inlineSubscribe id s =>
     simp only [applyOp, inlineSubscribe]
     split
@@ -1016,10 +1023,14 @@ theorem unsubscribe_result (x : Index) (a : Abs) (hpc : PrefixClosed x.nodes) (h
   unfold unsubscribe Abs.unsubscribe
   simp only [seek_eq_getNode _ hpc]
   by_cases hs : isShare (isolate (splitLevels f) 0).1 = true
-  · simp only [hs, if_true]
+  · by_cases h1 : (isolate (splitLevels f) 1).2 = true
+    case neg =>
+      have h1' : (isolate (splitLevels f) 1).2 = false := by simpa using h1
+      simp only [hs, h1', Bool.not_false, Bool.and_self, if_true]
+    simp only [hs, h1, Bool.not_true, Bool.and_false, Bool.false_eq_true, if_false, if_true]
     rw [← h.shared]
     cases hg : getNode x.nodes (pathFrom (splitLevels f) 2) <;> rfl
-  · simp only [hs, Bool.false_eq_true, if_false]
+  · simp only [hs, Bool.false_eq_true, Bool.false_and, if_false]
     rw [← h.subs]
     cases hg : getNode x.nodes (pathFrom (splitLevels f) 0) <;> rfl
 
